@@ -4,6 +4,7 @@
 -/
 import PyGqlModel.SchemaValid
 import PyGqlModel.Spec.SchemaValidSpec
+import PyGqlModel.Props.C13_call
 
 set_option linter.unusedSimpArgs false
 set_option linter.unusedVariables false
@@ -242,6 +243,19 @@ private theorem validateResolverArguments_nil (path : String) (args : List ArgD)
         · intro h p hp
           simp [h p hp]
 
+/-- **The resolver-signature rule, semantically**: for an inspectable callable (distinct parameter names, as Python
+    enforces; distinct python names of the arguments, the keys of one `**arguments` dict) `_validate_resolver_arguments`
+    reports nothing exactly when EVERY call the executor can make, `resolver(root, ctx, info, **arguments)` with the
+    required and the defaulted arguments and any subset of the others, binds under Python's call-binding rules
+    (`bindOk`; compared with CPython by correspondence stream N). -/
+theorem resolver_rule_iff_binds (path : String) (args : List ArgD) (r : ResolverD) (hcal : r.callable = true)
+    (hins : r.inspectable = true) (hd : ParamsDistinct r.params) (ha : ArgsDistinct args) :
+    validateResolverArguments path args r = [] ↔ ∀ K, Admissible args K → bindOk r.params K = true := by
+  rw [validateResolverArguments_nil]
+  constructor
+  · intro h; exact (compatible_iff_binds args r hd ha).mp (h.2 hins)
+  · intro h; exact ⟨hcal, fun _ => (compatible_iff_binds args r hd ha).mpr h⟩
+
 private theorem resolverPart_nil (rv : Bool) (path : String) (args : List ArgD) (o : Option ResolverD) :
     resolverPart Config.fixed rv path args o = [] ↔
       ∀ r, o = some r → rv = true → (r.callable = true ∧ (r.inspectable = true → ResolverCompatible args r)) := by
@@ -473,6 +487,7 @@ def CacheInv (st : CacheState) : Prop := st.isValid = true → ValidSchema st.sc
 
 def isResolverOp : Op → Bool
   | .replaceTypes _ _ _ => false
+  | .assignStructure _ _ => false
   | _ => true
 
 private theorem registerDefault_inv (st : CacheState) (tn : String) (r : ResolverD) (allow : Bool)
@@ -557,6 +572,7 @@ private theorem step_inv_resolver (st : CacheState) (op : Op) (hop : isResolverO
     have : cfgCacheTracksArguments = true := by decide
     simp [this] at hv
   | replaceTypes es ds hl => simp [isResolverOp] at hop
+  | assignStructure s' seen => simp [isResolverOp] at hop
 
 /-- **Cache soundness (the statement: the verdict is recomputed after resolvers are reassigned).**
     In every state reachable by `validate()`, `register_resolver`, `register_default_resolver`,
@@ -613,6 +629,9 @@ def HonestDirEntries (dirs : List DirectiveD) (es : List (String × Option Direc
 
 def HonestOp (st : CacheState) : Op → Prop
   | .replaceTypes es ds _ => HonestTypeEntries st.schema.types es ∧ HonestDirEntries st.schema.directives ds
+  /- a structural plain assignment keeps the invariant when `validate()` can see it (`seen`), or when it is made
+     before any verdict was cached; the other case is `cache_unsound_unseen_structural_setter` -/
+  | .assignStructure _ seen => seen = true ∨ st.isValid = false
   | _ => True
 
 private theorem map_replace_id {α} (name : α → String) (xs : List α) (n : String) (new : α)
@@ -946,6 +965,12 @@ theorem step_inv (st : CacheState) (op : Op) (hh : HonestOp st op) (h : CacheInv
   | registerSubscription tn fn r a sm => exact step_inv_resolver st _ rfl h
   | assignResolver lvl tn fn r sm => exact step_inv_resolver st _ rfl h
   | assignArguments tn fn args => exact step_inv_resolver st _ rfl h
+  | assignStructure s' seen =>
+    simp only [step]
+    intro hv
+    rcases hh with hs | hs
+    · rw [hs] at hv; simp at hv
+    · rw [hs] at hv; simp at hv
 
 /-- every replace request met along the history is honest about object identity -/
 def HonestRun : CacheState → List Op → Prop
@@ -1012,6 +1037,49 @@ theorem legacy_directive_unsound :
   have := h (by decide)
   rw [← validate_iff] at this
   exact absurd this (by decide)
+
+/-! #### the complete set of public mutators: structural setters -/
+
+/-- a structural plain assignment that `validate()` can see (it changes `_current_resolvers()`) resets the verdict,
+    whatever it does to the schema -/
+theorem structural_setter_seen_sound (st : CacheState) (s' : SchemaD) :
+    CacheInv (step st (.assignStructure s' true)).1 := by
+  simp only [step]; intro hv; simp at hv
+
+/-- **cache soundness over EVERY public mutator** (kept visible; false on today's tree): replace requests honest about
+    identity, everything else unrestricted -/
+def CacheSoundAllMutators : Prop :=
+  ∀ (st : CacheState), CacheInv st → ∀ op : Op,
+    (∀ es ds hl, op = .replaceTypes es ds hl → HonestOp st op) → CacheInv (step st op).1
+
+private def wSchemaBad : SchemaD := { types := [wInt, wQuery, { wA with interfaces := ["Query"] }] }
+
+/-- **Refutation.** After `validate()`, `schema.types["A"].interfaces = [Query]` (an object type "implementing" an
+    object type; equally `field.type = <input type>`, `union.types = []`, `input_type.fields = []`,
+    `input_field.type = <object type>`, `type.name = "__T"`, `schema.query_type = <interface>`): no resolver, no
+    argument object and no count changes, `_current_resolvers()` is the same tuple, and `validate()` keeps returning
+    although the schema is now invalid. Outside the property's statement ("recomputed after resolvers are
+    reassigned"); recorded as a limit of the cache (ASSUMPTIONS of corr/C13.py, evidence key
+    `outside_statement_stale_after_structural_setter`). -/
+theorem cache_unsound_unseen_structural_setter :
+    CacheInv wState ∧ wState.isValid = true ∧ ¬ CacheInv (step wState (.assignStructure wSchemaBad false)).1 := by
+  refine ⟨wState_inv, rfl, ?_⟩
+  intro h
+  have := h (by decide)
+  rw [← validate_iff] at this
+  exact absurd this (by decide)
+
+theorem cache_sound_all_mutators_fails_today : ¬ CacheSoundAllMutators := by
+  intro h
+  exact cache_unsound_unseen_structural_setter.2.2
+    (h wState wState_inv (.assignStructure wSchemaBad false) (fun es ds hl e => by cases e))
+
+/-- ...and what remains true of every history over ALL mutators: `cache_sound_all` with `HonestRun`, whose clause for a
+    structural assignment is "seen by the comparison, or made while no verdict is cached". Non-vacuity: a seen retyping
+    after a cached verdict, followed by `validate()`, recomputes and rejects. -/
+example : HonestRun wState [.assignStructure wSchemaBad true, .validate]
+    ∧ runTrace wState [.assignStructure wSchemaBad true, .validate] = [.ok, .validationError] := by
+  refine ⟨⟨Or.inl rfl, trivial, trivial⟩, by decide⟩
 
 /-! ### independence of the order of types -/
 
